@@ -10,6 +10,29 @@ CHECKS = {
         'note': NOTE,
         'technique': 'property-based testing: Hypothesis grammar strategies + round-trip/field oracle, exhaustive enumeration of finite sub-grammars',
     },
+    'C01': {
+        'text': 'Every registered (model, culture) pair is run on the whole Specs corpus (all models of the culture, not only the one the spec is '
+                'about), on generated well-formed expressions of all families in carriers with full-width variants, and on token soup from a closed '
+                'pool (incl. U+0130, special unit tokens); oracle = own 24-entry normalisation table + length-preserving lower-casing, offsets in '
+                'range, text equals the slice.',
+        'note': NOTE, 'technique': 'property-based testing: corpus enumeration + Hypothesis expression/soup generators against an independent span oracle'},
+    'C02': {
+        'text': 'Hypothesis rule-based state machine over a pool of (model, query, culture, options, reference) tuples: helper calls, long-lived '
+                'recognisers, threaded batches (2-8 harness threads, barrier), cache clears, permuted repetitions; reference model = answers of a '
+                'sequential caller in a fresh forked process, computed in two orders; plus a cold-cache multi-thread soak. Thread schedules are '
+                'sampled, not enumerated.',
+        'note': NOTE + ' Interleavings are whatever the GIL produces at a 200 microsecond switch interval.',
+        'technique': 'stateful property-based testing (Hypothesis RuleBasedStateMachine) against a fresh-process reference model'},
+    'C12': {
+        'text': 'Same sources as C01 (corpus x all models, single expressions) plus sentences of 2-4 generated expressions joined by filler separators, '
+                'deterministic chains of amounts with one unit, and date/time token adjacency; oracle = neighbours of one parse call are disjoint.',
+        'note': NOTE, 'technique': 'property-based testing: corpus enumeration + Hypothesis sentence generator against a disjointness oracle'},
+    'C17': {
+        'text': 'Finite routing table (about 55 culture strings x 16 getters x fallback x options x target culture) enumerated, plus a Hypothesis '
+                'rule-based machine that interleaves requests through fresh and long-lived recognisers, the recognize_* helpers and cache clears; '
+                'oracle = reference routing function from the statement + behaviour fingerprints of models built directly from the registered '
+                'constructors + object-identity rules for cache keys.',
+        'note': NOTE, 'technique': 'stateful property-based testing (rule-based machine) + exhaustive routing table against a reference routing function'},
     'C03': {
         'text': 'Hypothesis-generated digit literals per culture (own writer for grouping/decimal marks, sign, 0-6 fraction digits, carriers incl. '
                 'ambiguity-filter phrases, a quarter of the cases on a worker thread) against a Decimal oracle rounded to 15 significant digits, '
